@@ -360,10 +360,6 @@ BREAKING += [
 ]
 
 UNDECIDED = [
-    # the first-match search moved into a local closure that is handed the running offset: what it returns (and whether it depends
-    # on the offset) is not followed - neither a finding about offset-dependent bytes nor a pass
-    ('uw-search-closure', ['C03', 'C08', 'C09'], [(A, SEARCH_BLOCK, "        compressed = find_compressed_form(item, position)\n"),
-                                                  (A, ENV_ANCHOR, ENV_ANCHOR + "\n" + SEARCH_CLOSURE)]),
     # the loop is left early and what follows does not refuse: the rest of the items is not emitted by this loop
     ('uw-blobs-for-else-silent', ['C09'], blobs_for_else(tail="    return output\n")),
     # ... the same record when it is not provably private to the pass (handed to another call): its computed fields are not followed
@@ -380,4 +376,11 @@ UNDECIDED = [
     # the whole output as one join: no per-item loop to read
     ('uw-blobs-join', ['C09'], [(A, BLOBS + "\n    return output\n", "    for item in items:\n        if not isinstance(item, Blob):\n            raise ValueError('expected only blobs at this point')\n\n"
                                  "    return bytearray(b''.join(item.data for item in items))\n")]),
+]
+
+# the first-match search moved into a local closure that is handed the running offset: undecided on the audit branch alone, decided
+# once merged with core._search_with_return (the closure is inlined back into the loop)
+PRESERVING += [
+    ('pw-search-closure', ['C03', 'C08', 'C09'], [(A, SEARCH_BLOCK, "        compressed = find_compressed_form(item, position)\n"),
+                                                  (A, ENV_ANCHOR, ENV_ANCHOR + "\n" + SEARCH_CLOSURE)]),
 ]
